@@ -7,7 +7,7 @@ PID = "C05"
 GEN = ["primality"]
 LEAN = ["Ymq.Props.C05"]
 AUDIT = "Ymq.Audit.C05"
-THEOREMS = ['Ymq.C05.abort_never_wrong_product', 'Ymq.C05.abort_consistent_partial', 'Ymq.C05.abort_consistent_not_rho', 'Ymq.C05.abort_stops']
+THEOREMS = ['Ymq.C05.abort_never_wrong_product', 'Ymq.C05.abort_consistent', 'Ymq.C05.abort_stops']
 PROFILES = ["release", "chk"]
 TIMEOUT = 120.0
 LAT_BOUND_MS = 15000
@@ -20,7 +20,7 @@ MODELLED = ["the abort poll of factor_impl (lib.rs:431) and the aborted-sieve pa
 UNMODELLED = ["poll points inside the sieves / ECM (siqs.rs, mpqs.rs, qsieve.rs, ecm.rs) appear in the model only through their result "
               "(empty divisor list / None); wall-clock latency is a runtime behaviour and is measured, not proved",
               "P-1, rho and ECM128 have no poll point: their whole stage is one work unit"]
-HYPOTHESES = ['OracleOK', 'SelectorPre', 'RhoNeverFails (only for alg = rho)']
+HYPOTHESES = ['OracleOK', 'SelectorPre']
 
 
 def cases(tier, rng, extended=False):
@@ -150,7 +150,7 @@ def extra_coverage():
 
 
 CLAIM = ("Lean theorem over the control-flow model with the abort predicate an arbitrary stateful oracle: for every flip instant the "
-         "result is a list whose product is n or the declared failure, never a panic; once the predicate answers true at the poll of "
+         "result is a list whose product is n or the declared failure, never a panic (all ten selectors); once the predicate answers true at the poll of "
          "factor_impl no sieve or recursion is started. Promptness (wall clock) cannot be a theorem: it is measured on real runs "
          "with seeded flip instants in both profiles. PARTIAL.")
 LEVEL_NOTE = ("Trusted: Lean kernel (+3 standard axioms); trace-replay correspondence of the model; the latency half is testing with a "
